@@ -2,10 +2,10 @@
 # Regenerates /verif/seeded/benign/RESULTS.md from the check_<P>.txt files (written by tools/pardetect.py benign / benigncheck.sh)
 cd /verif/seeded/benign
 { echo "# Behaviour-preserving changes: the checks must stay silent"; echo
-  echo "Each directory holds a patch produced by a fresh sub-agent that was told to make a harmless maintenance edit inside the functions a property is anchored in (round 1: ids -b*, round 2: ids -c*); the full suite passes with each. \`tools/pardetect.py benign\` applies it in a scratch worktree and runs the property's quick check."; echo
+  echo "Each directory holds a patch produced by a fresh sub-agent that was told to make a harmless maintenance edit inside the functions a property is anchored in (round 1: ids -b*, round 2: ids -c*, round 3: ids -d* - checked against several properties each; the row shows the check of the id's own property); the full suite passes with each. \`tools/pardetect.py benign\` applies it in a scratch worktree and runs the property's quick check."; echo
   echo "| id | edit | check result |"; echo "|---|---|---|"
   tot=0; sil=0
-  for d in C*-[bc]*; do p=${d%%-*}; t=$(head -1 $d/notes.md 2>/dev/null | sed 's/^# *//' | cut -c1-110); f=$d/check_$p.txt
+  for d in C*-[bcd]*; do p=${d%%-*}; t=$(head -1 $d/notes.md 2>/dev/null | sed 's/^# *//' | cut -c1-110); f=$d/check_$p.txt
     [ -f $f ] || { echo "| $d | $t | not run |"; continue; }
     ex=$(grep -m1 '^exit=' $f | cut -d= -f2); tot=$((tot+1))
     if [ "$ex" = 0 ]; then r="silent (exit 0)"; sil=$((sil+1)); else r="**ALARM** (exit $ex): $(grep -m1 '^FAILED' $f | sed 's/FAILED obligation //; s/ \[.*//' | cut -c1-100)"; fi
